@@ -14,7 +14,7 @@
 
 From Coq Require Import List NArith PArith Bool Arith Lia FMapPositive.
 From OxiVerif Require Import DD.Table DD.TableProofs DD.Canon DD.Sem DD.Build DD.BuildProofs
-  DD.Apply DD.ApplyProofs DD.ApplyEvalProofs DD.ConfigApply DD.Quant DD.QuantSpecProofs DD.QuantLemmas DD.QuantTopProofs
+  DD.Apply DD.ApplyProofs DD.ApplyEvalProofs DD.ConfigApply DD.ConfigRun DD.Quant DD.QuantSpecProofs DD.QuantLemmas DD.QuantTopProofs
   Mgr.History.
 Import ListNotations.
 
@@ -246,4 +246,47 @@ Lemma qcacheok_widen : forall C (cget : C -> N -> list ref -> option ref)
 Proof.
   intros C cget Sg s k hs c H HR [O Q]. split; [apply cacheok_widen; assumption|].
   intros code args r E. apply qentry_ok_widen; [exact H | exact HR | apply (Q _ _ _ E)].
+Qed.
+
+(** ** Functions over variables under [set_handles] / [extends] *)
+
+Lemma bfun_of_set_handles : forall s hs r a, bfun_of (set_handles s hs) r a = bfun_of s r a.
+Proof.
+  intros s hs r a. unfold bfun_of.
+  change (FUEL (set_handles s hs)) with (FUEL s).
+  change (choice_of (set_handles s hs) a) with (choice_of s a).
+  rewrite ConfigRun.semk_set_handles. reflexivity.
+Qed.
+
+Lemma bfun_of_extends : forall s s' r a, WF s -> extends s s' -> ref_ok s r ->
+  bfun_of s' r a = bfun_of s r a.
+Proof.
+  intros s s' r a H X A. unfold bfun_of, FUEL, choice_of.
+  rewrite (ext_nlevels _ _ X), (ext_l2v _ _ X), (semk_extends s s' H X _ r _ A). reflexivity.
+Qed.
+
+(** ** Slots *)
+
+Lemma hget_hdel_same : forall hs k, hget (hdel hs k) k = None.
+Proof.
+  induction hs as [|[a e] r IH]; intros k; simpl; [reflexivity|].
+  destruct (N.eqb_spec a k) as [->|Hn]; simpl; [apply IH|].
+  destruct (N.eqb_spec a k); [contradiction | apply IH].
+Qed.
+
+Lemma hget_hdel_other : forall hs k x, x <> k -> hget (hdel hs k) x = hget hs x.
+Proof.
+  induction hs as [|[a e] r IH]; intros k x Hx; simpl; [reflexivity|].
+  destruct (N.eqb_spec a k) as [->|Hn]; simpl.
+  - destruct (N.eqb_spec k x); [congruence | apply IH; exact Hx].
+  - destruct (N.eqb_spec a x); [reflexivity | apply IH; exact Hx].
+Qed.
+
+Lemma hget_hset_same : forall hs k e, hget (hset hs k e) k = Some e.
+Proof. intros. unfold hset. simpl. rewrite N.eqb_refl. reflexivity. Qed.
+
+Lemma hget_hset_other : forall hs k e x, x <> k -> hget (hset hs k e) x = hget hs x.
+Proof.
+  intros hs k e x Hx. unfold hset. simpl.
+  destruct (N.eqb_spec k x); [congruence | apply hget_hdel_other; exact Hx].
 Qed.
